@@ -472,6 +472,7 @@ func (g *gen) threadRegister(t int) int {
 	g.tag("invocation")
 	// invocation ids: a counter the script may repeat or rewind
 	id := 1 + r.Intn(3) + 10*c
+	lastChunkT := cur
 	for i, n := 0, 1+r.Intn(4); i < n; i++ {
 		det := map[string]any{}
 		args := []any{float64(g.marker())}
@@ -508,11 +509,19 @@ func (g *gen) threadRegister(t int) int {
 				dk["progress"] = true
 			}
 			g.router(cur, 68.0, float64(id), rg, dk, args, map[string]any{})
+			lastChunkT = cur
 			cur += 1 + b.Delay + r.Intn(3)
 		}
 		if r.Chance(1, 3) {
 			g.tag("interrupt")
-			g.router(cur-1+r.Intn(3), 69.0, float64(id), map[string]any{})
+			at := cur - 1 + r.Intn(3)
+			if r.Chance(1, 3) {
+				// right behind the INVOCATION, at the same instant: the receive loop reads both
+				// before the invocation's worker goroutine has run
+				at = lastChunkT
+				g.tag("interrupt-behind-invocation")
+			}
+			g.router(at, 69.0, float64(id), map[string]any{})
 		}
 		switch x := r.Intn(10); {
 		case x < 6:
